@@ -327,3 +327,15 @@ func Float64(name string) float64 { return math.Float64frombits(nextInt(name)) }
 
 // CacheExpiry(true): from now on a TTL-cache entry may be reported missing at any lookup.
 func CacheExpiry(on bool) {}
+
+// OnLock / OnUnlock register a function the engine calls right after every
+// acquisition / right after every release of the given mutex (nil removes
+// it).  Harnesses use them to assert the invariant whenever the lock is
+// released and to havoc the guarded state (other goroutines' steps, under the
+// rely condition) whenever it is re-acquired.  Natively they do nothing.
+func OnLock(l any, f func())   {}
+func OnUnlock(l any, f func()) {}
+
+// Unreachable states that no feasible path gets here (an assertion that is
+// exempt from the vacuity check).
+func Unreachable(msg string) { panic(assertFailed{msg}) }
